@@ -12,6 +12,15 @@ TB_A = ("Trusted: CPython operator dispatch on engine.forksym.Lin, z3 linear ari
         "Stubs: tqdm -> identity, stderr -> sink.")
 
 CHECKS = {
+    "C14": dict(
+        technique="bounded symbolic execution over linear real arithmetic (z3 LRA) of layout.compute / tikz.render with symbolic node sizes and drawing parameters",
+        text="Every node's width/height and the numeric drawing parameters are symbolic positive reals; every feasible ordering of the layout's "
+             "min/max comparisons is explored and on each path one z3 query proves sibling-box disjointness and containment, pairwise trunk "
+             "disjointness, existence of every referenced anchor, the x<->y mirror equality between the horizontal layout with (h,w) and the "
+             "vertical one with (w,h), and repeatability, for all values on that path.",
+        design="5/C14", engine="forksym",
+        note="Trusted: engine.forksym over z3 linear real arithmetic; floats modelled as exact reals (counterexamples replayed with exact rationals and floats); "
+             "stub measurer bound to render.layout.measure_nodes; reconciliations come from the independent enumerator."),
     "C08": dict(
         technique="z3 SAT specification of binary refinements (laminar clade families) deciding completeness of binarize; bounded symbolic execution of the extended solvers against refinement-union oracle",
         text="For every tree shape with arbitrary arities up to the bound z3 decides, on a declarative clade specification, that every tree produced "
